@@ -1,3 +1,4 @@
 //! harness package hdrv: driver-level conformance (C01 C02 C05 C06 C07 C03 C17)
+pub mod ctl;
 pub mod rec;
 pub mod tbuf;
